@@ -87,6 +87,8 @@ class BasicConverter:
         loaded: dict[str, Any] = json.loads(data)
         args = [loaded.pop(name, self.args[name]) for name in self.args]
         kwargs = {name: loaded.pop(name, self.kwargs[name]) for name in self.kwargs}
+        if any(value is inspect.Parameter.empty for value in (*args, *kwargs.values())):
+            raise TypeError("Payload lacks an argument which has no default value.")
         if self.all_kwargs:
             kwargs.update(loaded)
         elif self.all_args:
